@@ -79,7 +79,7 @@ class Region:
 
 class IrSem:
     def __init__(self, module, ptr_bits=32, ext_results=(), max_steps=400, max_depth=3, init_globals=None,
-                 buffers=None, layout=None, ext_handlers=None, big_buffers=None):
+                 buffers=None, layout=None, ext_handlers=None, big_buffers=None, stack_base=None, stack_align=None):
         """init_globals: {variable name: list of byte values (ints / SymInt)} overriding/defining initial
         contents (default: Variable.value if present, else zeros).  buffers: {name: list of bytes}: extra
         caller-owned regions (returned addresses via self.buf_addr[name]).  layout: optional
@@ -91,8 +91,14 @@ class IrSem:
         being recorded in the trace; exceptions of the callable propagate.
         big_buffers: {name: (address, size, {offset: byte})}: a caller-owned region of `size` bytes at `address`
         (kind "bigbuffer": zero except the listed bytes; not part of visible_memory(), read it through
-        self.mem)."""
+        self.mem).
+        layout key "<function>_<name>": place that LiteralData there instead of on the stack.
+        stack_base / stack_align: where allocas start and one fixed alignment for them (default: STACK_BASE and
+        the alignment each Alloc asks for)."""
         layout = layout or {}
+        self.layout = layout
+        self.stack_base = STACK_BASE if stack_base is None else stack_base
+        self.stack_align = stack_align
         self.ext_handlers = dict(ext_handlers or {})
         self.m = module
         self.pb = ptr_bits
@@ -104,12 +110,14 @@ class IrSem:
         self.ub = []
         self.trace = []
         self.regions = []
+        self.prov = {}      # z3 term id -> Region the pointer was derived from (pointer provenance)
+        self.escaped = set()  # stack regions whose address was stored to memory / handed to an external
         self.mem = z3.K(z3.BitVecSort(ptr_bits), z3.BitVecVal(0, 8))
         self.gaddr = {}
         self.buf_addr = {}
         self.faddr = {}
         self.fbyaddr = {}
-        self.stack_top = STACK_BASE
+        self.stack_top = self.stack_base
         a = GLOBAL_BASE
         for v in module.variables:
             al = max(v.alignment, 1)
@@ -155,7 +163,8 @@ class IrSem:
         if layout or big_buffers:
             spans = sorted((r.base, r.base + r.size) for r in self.regions)
             assert all(x[1] <= y[0] for x, y in zip(spans, spans[1:])), "layout: overlapping regions"
-            assert all(hi <= STACK_BASE or lo >= STACK_BASE + 0x8000 for lo, hi in spans), "layout: region in stack area"
+            assert all(hi <= self.stack_base or lo >= self.stack_base + 0x8000 for lo, hi in spans), \
+                "layout: region in stack area"
         for k, f in enumerate(list(module.functions) + list(getattr(module, "externals", []))):
             self.faddr[f.name] = CODE_BASE + 4 * k
             self.fbyaddr[CODE_BASE + 4 * k] = f
@@ -163,7 +172,17 @@ class IrSem:
     # -- memory ----------------------------------------------------------------------------------
     def _valid(self, addr, size):
         conds = []
+        home = self.prov.get(addr.get_id())
+        if home is not None:
+            # a pointer derived from an object may only access that object (C 6.5.6p8; also what makes
+            # register promotion of non-escaping allocas sound): elsewhere is outside the premise
+            if home not in self.regions or home.size < size:
+                return z3.BoolVal(False)
+            return z3.And(z3.UGE(addr, z3.BitVecVal(home.base, self.pb)),
+                          z3.ULE(addr, z3.BitVecVal(home.base + home.size - size, self.pb)))
         for r in self.regions:
+            if r.kind == "stack" and id(r) not in self.escaped:
+                continue    # a pointer of unknown origin cannot designate a local whose address never escaped
             if r.size >= size:
                 conds.append(z3.And(z3.UGE(addr, z3.BitVecVal(r.base, self.pb)),
                                     z3.ULE(addr, z3.BitVecVal(r.base + r.size - size, self.pb))))
@@ -280,7 +299,11 @@ class IrSem:
             return r
         k = type(v).__name__
         if k == "Variable":
-            return z3.BitVecVal(self.gaddr[v.name], self.pb)
+            t = z3.BitVecVal(self.gaddr[v.name], self.pb)
+            for r in self.regions:
+                if r.kind == "global" and r.name == v.name:
+                    self.prov[t.get_id()] = r
+            return t
         if k in ("Function", "Procedure", "ExternalFunction", "ExternalProcedure"):
             return z3.BitVecVal(self.faddr[v.name], self.pb)
         if k == "ExternalVariable":
@@ -295,7 +318,14 @@ class IrSem:
             n = bits_of(ins.ty, pb)
             env[ins] = bvv(ins.value, n)
         elif k == "Binop":
-            env[ins] = self.binop(ins.operation, self.value(ins.a, env), self.value(ins.b, env), ins.ty)
+            va, vb = self.value(ins.a, env), self.value(ins.b, env)
+            env[ins] = self.binop(ins.operation, va, vb, ins.ty)
+            if ins.operation in ("+", "-") and type(ins.ty).__name__ == "PointerTyp":
+                home = self.prov.get(va.get_id())
+                if home is None and ins.operation == "+":
+                    home = self.prov.get(vb.get_id())
+                if home is not None:
+                    self.prov[env[ins].get_id()] = home
         elif k == "Unop":
             a = self.value(ins.a, env)
             bits_of(ins.ty, pb)
@@ -310,11 +340,13 @@ class IrSem:
                 env[ins] = z3.SignExt(n2 - n1, src)
             else:
                 env[ins] = z3.ZeroExt(n2 - n1, src)
+            if src.get_id() in self.prov and n2 >= n1:
+                self.prov[env[ins].get_id()] = self.prov[src.get_id()]
         elif k == "Undefined":
             # poison: flagged as UB where it is read (phis only propagate it)
             env[ins] = ("undef", bits_of(ins.ty, pb))
         elif k == "Alloc":
-            al = max(ins.alignment, 1)
+            al = max(ins.alignment, 1) if self.stack_align is None else self.stack_align
             a = (self.stack_top + al - 1) // al * al
             self.stack_top = a + ins.amount
             self.regions.append(Region(ins.name, a, ins.amount, "stack"))
@@ -323,11 +355,21 @@ class IrSem:
             src = env.get(ins.src)
             if isinstance(src, tuple) and src[0] == "blob":
                 env[ins] = z3.BitVecVal(src[1], pb)
+                for r in self.regions:
+                    if r.kind == "stack" and r.base == src[1]:
+                        self.prov[env[ins].get_id()] = r
             else:
                 raise Unsupported("address of non-alloc blob")
         elif k == "LiteralData":
-            a = (self.stack_top + 7) // 8 * 8
-            self.stack_top = a + len(ins.data)
+            key = None
+            if self.layout:
+                fn = getattr(ins, "function", None)
+                key = f"{getattr(fn, 'name', '')}_{ins.name}"
+            if key in self.layout:
+                a = self.layout[key]
+            else:
+                a = (self.stack_top + 7) // 8 * 8
+                self.stack_top = a + len(ins.data)
             self.regions.append(Region(ins.name, a, len(ins.data), "stack"))
             for j, b in enumerate(ins.data):
                 self.mem = z3.Store(self.mem, z3.BitVecVal(a + j, pb), z3.BitVecVal(b, 8))
@@ -337,6 +379,9 @@ class IrSem:
             env[ins] = self.load(self.value(ins.address, env), n // 8)
         elif k == "Store":
             n = bits_of(ins.value.ty, pb)
+            _v = self.value(ins.value, env)
+            if not isinstance(_v, tuple) and _v.get_id() in self.prov and self.prov[_v.get_id()].kind == "stack":
+                self.escaped.add(id(self.prov[_v.get_id()]))
             self.store(self.value(ins.address, env), self.value(ins.value, env), n // 8)
         elif k == "CopyBlob":
             d = self.value(ins.dst, env)
@@ -363,6 +408,9 @@ class IrSem:
                         raise Unsupported("external handler returned no value")
                     r = bvv(r, bits_of(ins.ty, pb))
             else:
+                for a in args:
+                    if a.get_id() in self.prov and self.prov[a.get_id()].kind == "stack":
+                        self.escaped.add(id(self.prov[a.get_id()]))
                 self.trace.append((callee.name, [z3.simplify(a) for a in args]))
                 r = None
                 if k == "FunctionCall":
